@@ -11,13 +11,13 @@ KANI = [{
     "mode": "external",
     "functions": FUNCS,
     "harnesses":
-        [H("validate_%d" % n, ["C15", "C06"] if n <= 3 else ["C15"], "every byte string of length %d" % n, tier="quick" if n <= 5 else ("thorough" if n == 6 else "off"), timeout=5400 if n > 5 else 900, mem_gb=16 if n > 5 else 12) for n in range(0, 9)]
+        [H("validate_%d" % n, ["C15", "C06"] if n <= 3 else ["C15"], "every byte string of length %d" % n, tier="quick", timeout=3600 if n > 5 else 900, mem_gb=12) for n in range(0, 9)]
         + [H("validate_full_%d" % n, ["C15"], "reference::name on every byte string of length %d" % n, tier="quick" if n <= 3 else "thorough", timeout=1800) for n in range(0, 6)]
         + [H("known_at_sign", ["C15"], "the single name '@'", known_finding="refname.known_at_sign")]
         + [H("sanitize_%d" % n, ["C15", "C06"], "every byte string of length %d" % n, tier="quick" if n <= 3 else "off", mem_gb=20 if n > 3 else 12, timeout=3600 if n > 2 else 900) for n in range(0, 5)]
-        + [H("skeleton_1_1_0", ["C15"], "'/' ++ '.lock' with one arbitrary byte inserted at any position", tier="thorough", timeout=3000, mem_gb=24),
-           H("skeleton_0_1_1", ["C15"], "'.lock' ++ '/' with one arbitrary byte inserted at any position", tier="thorough", timeout=3000, mem_gb=24),
-           H("skeleton_2_0_2", ["C15"], "'////' with one arbitrary byte inserted at any position", tier="thorough", timeout=3000, mem_gb=24)],
+        + [H("skeleton_1_1_0", ["C15"], "'/' ++ '.lock' with one arbitrary byte inserted at any position", tier="off", timeout=3000, mem_gb=24),
+           H("skeleton_0_1_1", ["C15"], "'.lock' ++ '/' with one arbitrary byte inserted at any position", tier="off", timeout=3000, mem_gb=24),
+           H("skeleton_2_0_2", ["C15"], "'////' with one arbitrary byte inserted at any position", tier="off", timeout=3000, mem_gb=24)],
 }]
 ASSUMPTIONS = [
     ("C15", "the specification git_refname_ok is the rule list of git-check-ref-format(1) written as byte predicates (contracts/refname/kani/src/main.rs); it was cross-checked against `git check-ref-format` at development time only"),
